@@ -2,4 +2,4 @@
 # validate_batch.sh C09/a C09/b ... : sequentially validate seeds (one at a time: the server tests are flaky under contention)
 exec 9>/tmp/seedval/.lock
 flock 9
-for s in "$@"; do /verif/tools/validate_seed.py /tmp/seedout/$s /tmp/seedval/$(echo $s | tr / _).log; done
+for s in "$@"; do /verif/tools/validate_seed.py ${SEEDROOT:-/tmp/seedout}/$s /tmp/seedval/$(echo $s | tr / _).log; done
